@@ -223,12 +223,31 @@ func HarnessC19EnvDetect() {
 	if hasSvc {
 		vndSetEnv("OTEL_SERVICE_NAME", name)
 	}
+	// the attribute list may also hold a pair without "=": it is skipped and
+	// reported, the valid pairs and the service-name precedence are unaffected
+	broken := hasAttr && vndChoice(2) == 1
 	if hasAttr {
-		vndSetEnv("OTEL_RESOURCE_ATTRIBUTES", "service.name="+other+",k=1")
+		attrs := "service.name=" + other + ",k=1"
+		if broken {
+			attrs = []string{"broken,", ""}[vndChoice(2)] + attrs + []string{",broken", ""}[vndChoice(2)]
+			if len(attrs) == len("service.name="+other+",k=1") {
+				attrs += ",broken"
+			}
+		}
+		vndSetEnv("OTEL_RESOURCE_ATTRIBUTES", attrs)
 	}
 	r, err := fromEnv{}.Detect(context.Background())
 	vndReach("env")
-	vndAssert(err == nil, "env-detect-no-error")
+	if broken {
+		vndReach("env-partial")
+		vndAssert(err != nil, "invalid-pair-reported")
+		vndAssert(r != nil, "partial-environment-resource-returned")
+		if r == nil {
+			return
+		}
+	} else {
+		vndAssert(err == nil, "env-detect-no-error")
+	}
 	v, ok := r.Set().Value("service.name")
 	vndAssert(ok == (hasSvc || hasAttr), "env-service-name-presence")
 	if hasSvc {
